@@ -17,7 +17,9 @@ FLOATS = [("1.5", 15, -1), ("0.25", 25, -2), ("2e3", 2, 3), ("12.5e-1", 125, -2)
 # |exponent| <= 22): rustc rounds the macro's literal correctly, the crate's fast path may be one ulp off.
 # Each runs as a stand-alone invocation at the end of every batch so that the failure names exactly this input
 # (known_findings.txt lists them; Lean: C09_float_window_needed).
-FIXED_OUTSIDE_WINDOW = [("1e-23", 1, -23), ("8.5e-30", 85, -31)]
+# ... and one with 20 significant digits (2^64 + 2049, just above the midpoint of two doubles): the crate's
+# scanner drops the twentieth digit in BOTH builds (Lean: C09_float_digits_needed).
+FIXED_OUTSIDE_WINDOW = [("1e-23", 1, -23), ("8.5e-30", 85, -31), ("18446744073709553665.0", 184467440737095536650, -1)]
 
 def rand_float(r):
     """a decimal float literal inside the exactness window: at most 15 significant digits and the power of
@@ -40,6 +42,20 @@ def rand_float(r):
     if not (-22 <= ex <= 22):
         return r.choice(FLOATS)
     return (s, sig, ex)
+
+# Unquote cases outside the model's token language (oracle only): expressions that mention caller variables
+# whose names a macro implementation might use itself, and expressions whose value depends on the order of
+# evaluation — "an unquoted Rust expression contributes exactly Value::from(expr) at its position".
+EXTRA = [
+    ('{ let tail = String::from("x"); let rest = 5; sexp!((,(tail.clone()) . ,rest)) }', '("x" . 5)'),
+    ('{ let tail = String::from("x"); let list = "l"; sexp!((,(tail.clone()) ,list . 7)) }', '("x" "l" . 7)'),
+    ('{ let elements = 7u8; let value = \'v\'; let head = true; let vec = "v"; sexp!(#(,elements ,value ,head ,vec)) }', '#(7 #\\v #t "v")'),
+    ('{ let rest = 1; let tail = 2; let last = 3; let v = 4; let e = 5; sexp!((,rest (,tail . ,last) #(,v) . ,e)) }', '(1 (2 . 3) #(4) . 5)'),
+    ('{ let mut c = 0; let mut next = || { c += 1; c }; sexp!((,(next()) ,(next()) . ,(next()))) }', '(1 2 . 3)'),
+    ('{ let mut c = 0; let mut next = || { c += 1; c }; sexp!((,(next()) (,(next()) . ,(next())) #(,(next())) ,(next()))) }', '(1 (2 . 3) #(4) 5)'),
+    ('{ let mut c = 0; let mut next = || { c += 1; c }; sexp!(#(,(next()) (a . ,(next())) ,(next()))) }', '#(1 (a . 2) 3)'),
+    ('{ let x = lexpr::Value::list(vec![1, 2]); let tail = 9; sexp!((,tail . ,x)) }', '(9 1 2)'),
+]
 
 def hx(s):
     return binascii.hexlify(s.encode("utf-8")).decode()
@@ -215,6 +231,8 @@ def run(prop, tier, seed, workdir, harness, driver):
             f.write(RUST_HEAD)
             for i, c in enumerate(cases):
                 f.write("    show(%d, sexp!(%s), %s);\n" % (i, c.src, rust_str(c.text)))
+            for j, (src, text) in enumerate(EXTRA):
+                f.write("    show(%d, %s, %s);\n" % (len(cases) + j, src, rust_str(text)))
             f.write("}\n")
         env = dict(os.environ, CARGO_NET_OFFLINE="true", CARGO_TARGET_DIR="/verif/build/target")
         p = subprocess.run(["cargo", "run", "--offline", "-q"], cwd=BUILD, env=env, stdout=subprocess.PIPE, stderr=subprocess.PIPE)
@@ -239,4 +257,10 @@ def run(prop, tier, seed, workdir, harness, driver):
                 fails.append("FAIL C09 sexp!(%s) = %s but from_str(%r) = %s\t%s" % (c.src, mac, c.text, txt, ops[i]))
             if i < len(m) and m[i] != mac:
                 fails.append("FAIL C09 model-disagreement: sexp!(%s) real %s model %s\t%s" % (c.src, mac, m[i], ops[i]))
+        for j, (src, text) in enumerate(EXTRA):
+            total += 1
+            k = len(cases) + j
+            parts = lines[k].split("\t") if k < len(lines) else ["?", "missing", "missing"]
+            if parts[1] != parts[2]:
+                fails.append("FAIL C09 %s = %s but from_str(%r) = %s\tmacro-extra %d" % (src, parts[1], text, parts[2], j))
     return fails, total, samples
